@@ -1136,10 +1136,77 @@ theorem construct_spec (user : Option Nat) (alloc capacity : Nat) (halloc : user
       all_goals simp only [List.length_replicate]
       all_goals first | omega | trivial
 
+/-- A refused `SetBuffer` (capacity below a header plus the alignment loss) changes nothing. -/
+theorem setBuffer_refused (g : Framer) (user : Option Nat) (alloc capacity : Nat)
+    (hc : capacity < HDR + slackOf user) : g.setBuffer user alloc capacity = g := by
+  unfold Framer.setBuffer
+  exact if_pos hc
+
+/-- An accepted `SetBuffer` produces an object that does not depend on the previous one at all:
+nothing of the old buffer, of the pending bytes or of the framing state survives. -/
+theorem setBuffer_independent (g g' : Framer) (user : Option Nat) (alloc capacity : Nat)
+    (hc : HDR + slackOf user ≤ capacity) :
+    g.setBuffer user alloc capacity = g'.setBuffer user alloc capacity := by
+  have hn : ¬ capacity < HDR + slackOf user := by omega
+  unfold slackOf at hn
+  unfold Framer.setBuffer
+  rw [if_neg hn, if_neg hn]
+
+/-- The alignment arithmetic of an accepted `SetBuffer`, for any previous object: at least a header's worth of
+capacity, the capacity that remains of the given storage behind the first aligned address, a 4-byte aligned
+buffer that lies inside the storage given, the reset state, nothing touched. -/
+theorem setBuffer_spec (g : Framer) (user : Option Nat) (alloc capacity : Nat) (halloc : user = none → alloc % 4 = 0)
+    (hc : HDR + slackOf user ≤ capacity) :
+    let f := g.setBuffer user alloc capacity
+    f.hasBuf = true ∧ HDR ≤ f.cap ∧ f.buf.length = f.cap ∧ f.addr % 4 = 0 ∧
+    f.state = .sync0 ∧ f.next = 0 ∧ f.cur = 0 ∧ f.hi = 0 ∧
+    f.cap = min capacity 0x7FFFFFFF - slackOf user ∧ f.managed = user.isNone ∧
+    (match user with
+      | some a => a ≤ f.addr ∧ f.addr + f.cap ≤ a + capacity
+      | none => alloc ≤ f.addr ∧ f.addr + f.cap ≤ alloc + capacity) := by
+  intro f
+  have hn : ¬ capacity < HDR + slackOf user := by omega
+  have hf : f = g.setBuffer user alloc capacity := rfl
+  unfold Framer.setBuffer at hf
+  cases user with
+  | none =>
+    have ha := halloc rfl
+    simp only [slackOf] at hn hc ⊢
+    rw [if_neg hn] at hf
+    have hal : alignUp alloc = alloc := by unfold alignUp; omega
+    simp only [Option.getD_none, hal, Nat.sub_self, Nat.sub_zero] at hf
+    have hlt : min capacity 0x7FFFFFFF % U32 = min capacity 0x7FFFFFFF :=
+      Nat.mod_eq_of_lt (by unfold U32; omega)
+    rw [hlt] at hf
+    rw [hf]
+    unfold HDR at hc ⊢
+    refine ⟨?_, ?_, ?_, ?_, ?_, ?_, ?_, ?_, ?_, ?_, ?_, ?_⟩
+    all_goals simp only [List.length_replicate]
+    all_goals first | omega | trivial
+  | some a =>
+    have hsl : a ≤ alignUp a ∧ alignUp a ≤ a + 3 ∧ alignUp a % 4 = 0 := by unfold alignUp; omega
+    simp only [slackOf] at hn hc ⊢
+    rw [if_neg hn] at hf
+    simp only [Option.getD_some] at hf
+    have hlt : (min capacity 0x7FFFFFFF - (alignUp a - a)) % U32 = min capacity 0x7FFFFFFF - (alignUp a - a) :=
+      Nat.mod_eq_of_lt (by unfold U32; omega)
+    rw [hlt] at hf
+    rw [hf]
+    unfold HDR at hc ⊢
+    refine ⟨?_, ?_, ?_, ?_, ?_, ?_, ?_, ?_, ?_, ?_, ?_, ?_⟩
+    all_goals simp only [List.length_replicate]
+    all_goals first | omega | trivial
+
+/-- Hence an accepted `SetBuffer` leaves a framer in the reset state, whatever it was applied to. -/
+theorem setBuffer_fresh (g : Framer) (user : Option Nat) (alloc capacity : Nat) (halloc : user = none → alloc % 4 = 0)
+    (hc : HDR + slackOf user ≤ capacity) : Fresh (g.setBuffer user alloc capacity) := by
+  have h := setBuffer_spec g user alloc capacity halloc hc
+  exact ⟨h.1, h.2.1, h.2.2.1, by rw [h.2.2.2.2.2.2.2.1]; exact Nat.zero_le _, h.2.2.2.2.1, h.2.2.2.2.2.1⟩
+
 /-- A buffer that is too small — counting the bytes a caller's buffer loses to alignment — leaves the
-framer without a buffer, and such a framer ignores all data. -/
+framer without a buffer, and such a framer ignores all data (until a later `SetBuffer` is accepted). -/
 theorem no_buffer (user : Option Nat) (alloc capacity : Nat)
-    (hb : (Framer.construct user alloc capacity).hasBuf = false) (ops : List Op) :
+    (hb : (Framer.construct user alloc capacity).hasBuf = false) (ops : List Op) (hops : ∀ op ∈ ops, op.keepsBuffer) :
     runOps (Framer.construct user alloc capacity) ops = Framer.empty := by
   have hf : Framer.construct user alloc capacity = Framer.empty := by
     cases user with
@@ -1167,7 +1234,8 @@ theorem no_buffer (user : Option Nat) (alloc capacity : Nat)
       cases op with
       | data d => rfl
       | reset => rfl
-    rw [this]; exact ih
+      | setBuffer u a c => exact absurd (hops _ (List.mem_cons_self ..)) (by intro h; exact h)
+    rw [this]; exact ih (fun op h => hops op (List.mem_cons_of_mem _ h))
 
 /-! ### Reachable states -/
 
@@ -1178,34 +1246,172 @@ theorem onData_rel {cap : Nat} {f : Framer} {p : Bytes} (h : Rel cap f p) (d : B
     Delivers cap (onData f d) 0 [] (p ++ d) f.addr := by
   unfold onData; rw [if_pos h.core.hasBuf]; exact onDataLoop_spec d h
 
+/-- What holds of every object a user can get hold of: either it never got a buffer (and is the
+default-constructed object), or it stands in the simulation relation with the bytes received since the last
+`Reset()` / accepted `SetBuffer()` that the scan has not consumed, and its buffer is 4-byte aligned. -/
+def Inv (g : Framer) : Prop :=
+  (g.hasBuf = false ∧ g = Framer.empty) ∨ (∃ p, Rel g.cap g p ∧ g.addr % 4 = 0)
+
+theorem inv_applyOp {g : Framer} (hg : Inv g) (op : Op) (hop : op.ok) : Inv (applyOp g op) := by
+  cases op with
+  | data d =>
+    rcases hg with ⟨hb, he⟩ | ⟨p, hr, ha⟩
+    · left
+      have : applyOp g (.data d) = g := by show (onData g d).f = g; unfold onData; rw [hb]; rfl
+      rw [this]; exact ⟨hb, he⟩
+    · right
+      obtain ⟨r1, _, _, r4⟩ := onData_rel hr d
+      refine ⟨(settle g.cap (p ++ d)).2, ?_, by show (onData g d).f.addr % 4 = 0; rw [r4]; exact ha⟩
+      show Rel (onData g d).f.cap (onData g d).f _
+      rw [r1.capEq]; exact r1
+  | reset =>
+    rcases hg with ⟨hb, he⟩ | ⟨p, hr, ha⟩
+    · left; rw [he]; exact ⟨rfl, rfl⟩
+    · right; exact ⟨[], rel_nil (hr.core.congr rfl rfl rfl rfl) rfl rfl rfl, ha⟩
+  | setBuffer user alloc capacity =>
+    have halloc : user = none → alloc % 4 = 0 := by
+      intro hu; subst hu; exact hop
+    by_cases hc : capacity < HDR + slackOf user
+    · show Inv (g.setBuffer user alloc capacity)
+      rw [setBuffer_refused g user alloc capacity hc]; exact hg
+    · right
+      have hc' : HDR + slackOf user ≤ capacity := by omega
+      exact ⟨[], Fresh.rel (setBuffer_fresh g user alloc capacity halloc hc'),
+        (setBuffer_spec g user alloc capacity halloc hc').2.2.2.1⟩
+
+theorem inv_runOps (ops : List Op) : ∀ (g : Framer), Inv g → (∀ op ∈ ops, op.ok) → Inv (runOps g ops) := by
+  induction ops with
+  | nil => intro g hg _; exact hg
+  | cons op ops ih =>
+    intro g hg hok
+    unfold runOps; rw [List.foldl_cons]
+    exact ih _ (inv_applyOp hg op (hok op (List.mem_cons_self ..))) (fun o h => hok o (List.mem_cons_of_mem _ h))
+
+theorem inv_construct (user : Option Nat) (alloc capacity : Nat) (halloc : user = none → alloc % 4 = 0) :
+    Inv (Framer.construct user alloc capacity) := by
+  by_cases hc : (Framer.construct user alloc capacity).hasBuf = true
+  · right
+    have h0 := construct_spec user alloc capacity halloc hc
+    exact ⟨[], Fresh.rel ⟨hc, h0.1, h0.2.1, by rw [h0.2.2.2.2.2.1]; exact Nat.zero_le _, h0.2.2.2.1,
+      h0.2.2.2.2.1⟩, h0.2.2.1⟩
+  · left
+    have hb : (Framer.construct user alloc capacity).hasBuf = false := by simpa using hc
+    have := no_buffer user alloc capacity hb [] (by intro op h; cases h)
+    exact ⟨hb, this⟩
+
+theorem reachable_inv {f : Framer} (h : Reachable f) : Inv f := by
+  obtain ⟨user, alloc, capacity, ops, halloc, hok, hf⟩ := h
+  rw [hf]
+  exact inv_runOps ops _ (inv_construct user alloc capacity halloc) hok
+
 theorem reachable_rel {f : Framer} (h : Reachable f) (hb : f.hasBuf = true) :
     ∃ p, Rel f.cap f p ∧ f.addr % 4 = 0 := by
-  obtain ⟨user, alloc, capacity, ops, halloc, hf⟩ := h
-  by_cases hc : (Framer.construct user alloc capacity).hasBuf = true
-  · have h0 := construct_spec user alloc capacity halloc hc
-    have key : ∀ (ops : List Op) (g : Framer), (∃ p, Rel g.cap g p ∧ g.addr % 4 = 0) →
-        ∃ p, Rel (runOps g ops).cap (runOps g ops) p ∧ (runOps g ops).addr % 4 = 0 := by
-      intro ops
-      induction ops with
-      | nil => intro g hg; exact hg
-      | cons op ops ih =>
-        intro g ⟨p, hr, ha⟩
-        unfold runOps; rw [List.foldl_cons]
-        apply ih
-        cases op with
-        | data d =>
-          obtain ⟨r1, _, _, r4⟩ := onData_rel hr d
-          refine ⟨(settle g.cap (p ++ d)).2, ?_, by show (onData g d).f.addr % 4 = 0; rw [r4]; exact ha⟩
-          show Rel (onData g d).f.cap (onData g d).f _
-          rw [r1.capEq]; exact r1
-        | reset =>
-          exact ⟨[], rel_nil (hr.core.congr rfl rfl rfl rfl) rfl rfl rfl, ha⟩
-    rw [hf]
-    exact key ops _ ⟨[], Fresh.rel ⟨hc, h0.1, h0.2.1, by rw [h0.2.2.2.2.2.1]; exact Nat.zero_le _, h0.2.2.2.1,
-      h0.2.2.2.2.1⟩, h0.2.2.1⟩
-  · have := no_buffer user alloc capacity (by simpa using hc) ops
-    rw [← hf] at this
-    rw [this] at hb; cases hb
+  rcases reachable_inv h with ⟨hb', _⟩ | hr
+  · rw [hb'] at hb; cases hb
+  · exact hr
+
+/-! ### Whole histories: `Reset()` and accepted `SetBuffer()` calls cut the stream into segments -/
+
+/-- The messages of one segment: the scan with the capacity in force (`none`: no buffer, nothing). -/
+def segMsgs (cap : Option Nat) (seg : Bytes) : List Bytes :=
+  match cap with
+  | some c => msgBytes seg 0 ((cfgCxx c).run seg 0).msgs
+  | none => []
+
+/-- The specification of a history: the stream is cut at every `Reset()` and every accepted `SetBuffer()`;
+a segment (capacity `cap`, bytes received so far `seg`) contributes the messages of the scan over it. -/
+def specCbs (cap : Option Nat) (seg : Bytes) : List Op → List Bytes
+  | [] => segMsgs cap seg
+  | .data d :: ops => specCbs cap (seg ++ d) ops
+  | .reset :: ops => segMsgs cap seg ++ specCbs cap [] ops
+  | .setBuffer user _ capacity :: ops =>
+    if capacity < HDR + slackOf user then specCbs cap seg ops
+    else segMsgs cap seg ++ specCbs (some (min capacity 0x7FFFFFFF - slackOf user)) [] ops
+
+theorem segMsgs_some (c : Nat) (seg : Bytes) : segMsgs (some c) seg = (settle c seg).1 :=
+  (settle_msgs c seg 0).symm
+
+theorem segMsgs_nil (cap : Option Nat) : segMsgs cap [] = [] := by
+  cases cap with
+  | none => rfl
+  | some c => rw [segMsgs_some, settle_nil]
+
+/-- Invariant of a history inside a segment that has received `seg` so far. -/
+def HInv (g : Framer) (seg : Bytes) : Prop :=
+  (g.hasBuf = false ∧ g = Framer.empty) ∨ (g.hasBuf = true ∧ Rel g.cap g (settle g.cap seg).2)
+
+theorem capOf_false {g : Framer} (h : g.hasBuf = false) : capOf g = none := by unfold capOf; rw [h]; rfl
+theorem capOf_true {g : Framer} (h : g.hasBuf = true) : capOf g = some g.cap := by unfold capOf; rw [h]; rfl
+
+theorem Fresh.hinv {g : Framer} (h : Fresh g) : HInv g [] := by
+  right; refine ⟨h.1, ?_⟩; rw [settle_nil]; exact Fresh.rel h
+
+theorem history (ops : List Op) : ∀ (g : Framer) (seg : Bytes), HInv g seg → (∀ op ∈ ops, op.ok) →
+    segMsgs (capOf g) seg ++ opsCbs g ops = specCbs (capOf g) seg ops := by
+  induction ops with
+  | nil => intro g seg _ _; simp [opsCbs, specCbs]
+  | cons op ops ih =>
+    intro g seg hg hok
+    have hok' : ∀ o ∈ ops, o.ok := fun o h => hok o (List.mem_cons_of_mem _ h)
+    cases op with
+    | data d =>
+      rcases hg with ⟨hb, he⟩ | ⟨hb, hr⟩
+      · have e : onData g d = ⟨g, 0, []⟩ := by unfold onData; rw [hb]; rfl
+        have := ih g (seg ++ d) (Or.inl ⟨hb, he⟩) hok'
+        simp only [opsCbs, specCbs, e, List.nil_append]
+        rw [capOf_false hb] at this ⊢
+        exact this
+      · obtain ⟨r1, r2, _, _⟩ := onData_rel hr d
+        have hb' : (onData g d).f.hasBuf = true := r1.core.hasBuf
+        have hcap : (onData g d).f.cap = g.cap := r1.capEq
+        have hs := settle_append g.cap seg d
+        have hinv : HInv (onData g d).f (seg ++ d) := by
+          right; refine ⟨hb', ?_⟩; rw [hcap, hs]; exact r1
+        have := ih _ (seg ++ d) hinv hok'
+        rw [capOf_true hb', hcap, segMsgs_some, hs] at this
+        simp only [opsCbs, specCbs]
+        rw [capOf_true hb, segMsgs_some, r2, List.nil_append, ← this]
+        simp
+    | reset =>
+      have hinv : HInv g.reset [] := by
+        rcases hg with ⟨hb, he⟩ | ⟨hb, hr⟩
+        · left; rw [he]; exact ⟨rfl, rfl⟩
+        · right; refine ⟨hb, ?_⟩; rw [settle_nil]
+          exact rel_nil (hr.core.congr rfl rfl rfl rfl) rfl rfl rfl
+      have hc : capOf g.reset = capOf g := rfl
+      have := ih g.reset [] hinv hok'
+      rw [hc, segMsgs_nil, List.nil_append] at this
+      simp only [opsCbs, specCbs]
+      rw [this]
+    | setBuffer user alloc capacity =>
+      have halloc : user = none → alloc % 4 = 0 := by
+        intro hu; subst hu; exact hok _ (List.mem_cons_self ..)
+      simp only [opsCbs, specCbs]
+      by_cases hc : capacity < HDR + slackOf user
+      · rw [if_pos hc, setBuffer_refused g user alloc capacity hc]
+        exact ih g seg hg hok'
+      · rw [if_neg hc]
+        have hc' : HDR + slackOf user ≤ capacity := by omega
+        have hf := setBuffer_fresh g user alloc capacity halloc hc'
+        have hcap := (setBuffer_spec g user alloc capacity halloc hc').2.2.2.2.2.2.2.2.1
+        have := ih _ [] (Fresh.hinv hf) hok'
+        rw [capOf_true hf.1, hcap, segMsgs_nil, List.nil_append] at this
+        rw [this]
+
+theorem history_construct (user : Option Nat) (alloc capacity : Nat) (halloc : user = none → alloc % 4 = 0)
+    (ops : List Op) (hok : ∀ op ∈ ops, op.ok) :
+    opsCbs (Framer.construct user alloc capacity) ops =
+      specCbs (capOf (Framer.construct user alloc capacity)) [] ops := by
+  have hinv : HInv (Framer.construct user alloc capacity) [] := by
+    rcases inv_construct user alloc capacity halloc with h | ⟨p, hr, _⟩
+    · exact Or.inl h
+    · by_cases hc : (Framer.construct user alloc capacity).hasBuf = true
+      · have h0 := construct_spec user alloc capacity halloc hc
+        exact Fresh.hinv ⟨hc, h0.1, h0.2.1, by rw [h0.2.2.2.2.2.1]; exact Nat.zero_le _, h0.2.2.2.1, h0.2.2.2.2.1⟩
+      · rw [hr.core.hasBuf] at hc; exact absurd rfl hc
+  have := history ops _ [] hinv hok
+  rw [segMsgs_nil, List.nil_append] at this
+  exact this
 
 /-! ### Sequences of calls -/
 
